@@ -429,6 +429,8 @@ def gen_filter(rng, kind, store):
         return ['sensitive', rng.choice([True, False])]
     if kind == 'date':
         dates = sorted({o['idate'] for o in objs}) or [1600000000]
+        if rng.random() < 0.15:
+            return ['date', rng.choice(DATE_EDGES)]
         d = rng.choice(dates) + rng.choice([0, 0, 0, 1, -1, 3, -5])
         return ['date', d]
     if kind == 'other':
@@ -474,6 +476,21 @@ def gen_filter_matching(rng, kind, o):
     return None
 
 
+FAR_FUTURE = 4102444800          # 2100-01-01, beyond 32 bits
+DATE_EDGES = [0, 0, 1, -1, FAR_FUTURE]
+
+
+def boundary_dates(rng, store, target):
+    """One or two Initial Date filter values drawn from the boundary menu - 0, 1, -1, the exact creation second of an
+    object, one before / after, far future - in either position and order, so that ranges such as [0, T], [T, 0],
+    [T, far future] and exact matches on 0 occur with objects on both sides of the bounds."""
+    dates = sorted({o['idate'] for o in store.objs}) or [1600000000]
+    t = target['idate'] if target is not None else rng.choice(dates)
+    menu = [0, 0, 1, -1, FAR_FUTURE, t, t, t - 1, t + 1, dates[0], dates[-1], dates[len(dates) // 2]]
+    k = rng.choice([1, 2, 2, 2, 2])
+    return [['date', rng.choice(menu)] for _ in range(k)]
+
+
 def gen_filters(rng, store, req):
     n = rng.choice([0, 1, 1, 1, 2, 2, 2, 3, 3, 4])
     kinds = list(FILTER_KINDS) + ['otype', 'other'] + (['maskraw'] if rng.random() < 0.3 else [])
@@ -498,6 +515,14 @@ def gen_filters(rng, store, req):
         fs.insert(rng.randint(0, len(fs)), ['date', rng.choice([1600000000, 5, -3, 1])])
         if rng.random() < 0.3:
             fs.append(['date', rng.choice([1600000001, 7])])
+        return fs
+    r = rng.random()
+    if r < 0.10:      # boundary values of the date filters, in both positions
+        ds = boundary_dates(rng, store, target)
+        fs = [f for f in fs if f[0] != 'date'][:2] + ds
+        if rng.random() < 0.5:
+            rng.shuffle(fs)
+        assert all(f is not None for f in fs), fs
         return fs
     r = rng.random()
     if r < 0.12:      # explicit date range / too many dates
@@ -928,6 +953,17 @@ def grid_requests(rng, store):
     for ds in ([lo, hi], [hi, lo], [mid, mid], [mid, hi], [lo - 5, lo - 1], [hi + 1, hi + 9], [mid], [mid + 1], [lo, mid, hi], [hi, hi, hi]):
         out.append((reqs[0], [['date', d] for d in ds]))
         out.append((reqs[1], [['otype', 'PUBLIC_KEY']] + [['date', d] for d in ds]))
+    # boundary values in BOTH positions of a range, and as exact matches: 0, 1, -1, first / middle / last creation second,
+    # one after the last, far future; the store's dates straddle every pair
+    edges = [0, 1, -1, lo, mid, hi, hi + 1, FAR_FUTURE]
+    for a in edges:
+        out.append((reqs[0], [['date', a]]))
+        for b in edges:
+            out.append((reqs[0], [['date', a], ['date', b]]))
+    for ds in ([0, lo, hi], [lo, 0, hi], [0, 0, 0], [0, 0, hi], [FAR_FUTURE, 0, mid]):
+        out.append((reqs[0], [['date', d] for d in ds]))
+    out.append((reqs[0], [['date', 0], ['otype', 'SYMMETRIC_KEY'], ['date', hi]]))
+    out.append((reqs[1], [['date', 0], ['date', hi]]))
     out.append((('dave', None), [['date', lo], ['date', mid], ['date', hi]]))            # nothing visible: the third date goes unnoticed
     out.append((reqs[0], [['otype', 'TEMPLATE'], ['date', lo], ['date', mid], ['date', hi]]))
     out.append((reqs[0], [['otype', 'SYMMETRIC_KEY'], ['len', 256]]))
